@@ -51,7 +51,12 @@ func (db *Builder) Add(b []byte) error {
 	if db.lastWord != nil && bytes.Compare(db.lastWord, b) != -1 {
 		return errors.New("byte slices must be added in lexicographical order")
 	}
-	db.lastWord = b
+	//A nil lastWord means that no word has been added yet, so the empty word must not be recorded as nil.
+	lastWord := b
+	if lastWord == nil {
+		lastWord = []byte{}
+	}
+	db.lastWord = lastWord
 	_, suffix, lastNode := db.d.commonPrefix(b)
 	if len(lastNode.links) != 0 {
 		db.register = replaceOrRegister(lastNode, db.register)
